@@ -125,7 +125,8 @@ pub fn check(t: &Trace<'_>, out: &mut CaseOut) -> bool {
         // is a ping outstanding (sent, unanswered) at time x?
         let outstanding_at = |x: u64| pings.iter().any(|p| p.t_done <= x && !resps.iter().any(|r| r.0 > p.ev && r.1 <= x));
         // (a) gaps between consecutive client packets
-        let end_of_wait = ops.iter().rev().find(|o| matches!(o.kind, "poll" | "recv" | "pollreply")).map(|o| (o.t_ret, o.outcome.clone()));
+        // (a call on a handle that is already dead is not a wait)
+        let end_of_wait = ops.iter().rev().find(|o| matches!(o.kind, "poll" | "recv" | "pollreply") && o.live_before).map(|o| (o.t_ret, o.outcome.clone()));
         if ka > 0 && continuous {
             let mut prev = cop.t_ret;
             // a transport that is busy for a while delays the completion of a packet the client
